@@ -16,6 +16,10 @@
 //    sequence equality, as for `Vec`.
 //  * value_json_hash::<D, Val>(v) = D(json_bytes(v)) or the serde_json error (its body threads `&mut hasher`
 //    through a BufWriter, outside Verus); `AsRef::as_ref` is a pure function `as_ref_spec`.
+// Rewrites: `|_|` -> `|_e|` in the two `map_err` closures (Verus: "only variables are supported here"), the local
+//    `use digest::Digest;` / `use std::str::FromStr;` lines are pointed at / dropped for the shim modules.
+// Not expressible: the *kind* of the error when the id does not parse (`?` converts cid::Error through `From`,
+//    and Verus gives that hidden conversion no spec).
 use vstd::prelude::*;
 verus! {
 
